@@ -595,6 +595,62 @@ pub fn gen_healthy(r: &mut Rng, sid: String, streams: bool) -> Scenario {
     Scenario { sid, conns, steps, fair: false }
 }
 
+/// C10 "while the stream is open other clients are still served": a stream that always has its next item at
+/// hand (every item released before the server gets to run) next to clients whose complete calls arrive
+/// meanwhile; whole frames only, so that a call is ready as soon as it is available (`fair`).
+pub fn gen_hot_stream(r: &mut Rng, sid: String) -> Scenario {
+    let n = r.range(2, 4);
+    let k = r.range(n + 3, n + 7) as u32;
+    let mut conns: Vec<ConnScript> = Vec::new();
+    for c in 0..n {
+        let calls: Vec<Kind> = if c == 0 {
+            let mut v = vec![Kind::Stream(k, r.chance(1, 2))];
+            if r.chance(1, 2) {
+                v.push(Kind::Plain(0));
+            }
+            v
+        } else {
+            (0..r.range(1, 3)).map(|_| if r.chance(1, 5) { Kind::Error } else { Kind::Plain(r.range(0, 8)) }).collect()
+        };
+        conns.push(ConnScript { calls, faulty: false, fail_write_at: 0, fail_once: false, fail_deliver: 0 });
+    }
+    let mut steps = vec![Step::Connect(0), Step::Poll];
+    let early: Vec<usize> = (1..n).filter(|_| r.chance(1, 2)).collect();
+    for c in &early {
+        steps.push(Step::Connect(*c));
+    }
+    steps.push(Step::Poll);
+    steps.push(Step::Send { c: 0, frames: 1, extra: 0 });
+    steps.push(Step::Poll);
+    // the whole stream becomes available at once (or after the first item went out)
+    let first = if r.chance(1, 3) { 1 } else { 0 };
+    for _ in 0..first {
+        steps.push(Step::Tick(0));
+        steps.push(Step::Poll);
+    }
+    for _ in first..(k as usize + 1) {
+        steps.push(Step::Tick(0));
+    }
+    // ... and the others show up with complete calls
+    let mut order: Vec<usize> = (1..n).collect();
+    for i in (1..order.len()).rev() {
+        order.swap(i, r.below(i as u64 + 1) as usize);
+    }
+    for c in order {
+        if !early.contains(&c) {
+            steps.push(Step::Connect(c));
+        }
+        steps.push(Step::Send { c, frames: if r.chance(1, 2) { 1 } else { conns[c].calls.len() }, extra: 0 });
+        if r.chance(1, 3) {
+            steps.push(Step::Poll);
+        }
+    }
+    for _ in 0..6 {
+        steps.push(Step::Poll);
+    }
+    Scenario { sid, conns, steps, fair: true }
+}
+
 /// C08 on connections whose transport fails a write (for good or once, having handed over nothing, a part
 /// or everything): calls keep coming behind the failure; what reaches each client is judged.
 pub fn gen_wfault(r: &mut Rng, sid: String) -> Scenario {
